@@ -154,3 +154,17 @@ mod tests {
         }
     }
 }
+
+// Verification hooks (add-only, compiled only with `--cfg rngs_verif`).
+#[cfg(rngs_verif)]
+impl Xoshiro512PlusPlus {
+    /// Verification hook: build a generator directly from its state words.
+    pub fn verif_from_state(s: [u64; 8]) -> Self {
+        Xoshiro512PlusPlus { s }
+    }
+
+    /// Verification hook: read the state words.
+    pub fn verif_state(&self) -> [u64; 8] {
+        self.s
+    }
+}
